@@ -144,6 +144,32 @@ def hostile_packet(rng, victim_name):
     return pkt, desc, is_query
 
 
+ODD_LABELS = [b"Living Rm.", b".hidden", b"a..b", b"Dr. Smith", b"Acme Co.", b".", b"..", b"tab\there", b"back\\slash",
+              b"nul\0byte", b"sp ace", b"caf\xc3\xa9", b"%s", b"{0}", b"_http", b"a" * 63]
+
+
+def odd_name_packet(rng, legacy):
+    """Well-formed datagrams whose names are legal on the wire but awkward as text: labels that contain dots (DNS-SD
+    instance names are arbitrary UTF-8: 'Living Rm.'), begin or end with one, hold control characters or format
+    directives. Whatever the instance makes of them it has to be able to write back: they come back in the known-answer
+    list of its browser's next query and in the question echo of a legacy unicast reply."""
+    lab = rng.choice(ODD_LABELS)
+    odd = bytes([len(lab)]) + lab + _plain_name(VT)
+    k = rng.random()
+    if legacy or k < 0.35:
+        # a query: an answerable question first (so that a reply with the echoed questions is built), then the odd name
+        qt = rng.choice([12, 33, 16, 1, 255])
+        return _hdr(rng.randrange(1, 65535), 0, 2, 0) + _plain_name(VT) + struct.pack(">HH", 12, 1) + odd + \
+            struct.pack(">HH", qt, 1), "oddq"
+    if k < 0.8:
+        # a pointer of the browsed type to the odd instance name
+        return _hdr(0, 0x8400, 0, 1) + _plain_name(VT) + struct.pack(">HHIH", 12, 1, rng.choice([120, 4500]), len(odd)) + odd, "oddptr"
+    # SRV of the odd instance name pointing at an odd host name
+    host = bytes([len(lab)]) + lab + b"\x05local\0"
+    rd = b"\0\0\0\0\0\x50" + host
+    return _hdr(0, 0x8400, 0, 1) + odd + struct.pack(">HHIH", 33, 0x8001, 120, len(rd)) + rd, "oddsrv"
+
+
 def mutate(data, rng):
     if not data:
         return data
@@ -202,8 +228,11 @@ def generate(rng, tier):
         elif k < 0.45:
             ops.append({"t": round(t, 6), "op": "fuzz", "kind": "mutate", "src_port": sp, "dst": dst,
                         "s": rng.randrange(1 << 30)})
-        elif k < 0.82:
+        elif k < 0.77:
             ops.append({"t": round(t, 6), "op": "fuzz", "kind": "hostile", "src_port": sp, "dst": dst,
+                        "s": rng.randrange(1 << 30)})
+        elif k < 0.82:
+            ops.append({"t": round(t, 6), "op": "fuzz", "kind": "oddname", "src_port": sp, "dst": dst,
                         "s": rng.randrange(1 << 30)})
         elif k < 0.84:
             ops.append({"t": round(t, 6), "op": "fuzz", "kind": "recase", "src_port": 5353, "dst": None,
@@ -281,6 +310,9 @@ def execute(scenario, seed, overrides=None):
                     stats["utf8_labels"] += 1
                 if op["src_port"] != 5353:
                     stats["legacy_port_hostile"] += 1
+            elif kind == "oddname":
+                data, desc = odd_name_packet(rng, op["src_port"] != 5353)
+                stats["odd_names"] = stats.get("odd_names", 0) + 1
             elif kind == "recase":
                 # a copy of the announcement the victim is about to receive with a few bits flipped in letters of the
                 # owner name (0x20: the letter case) - DNS names are case-insensitive, it is the same record
